@@ -208,7 +208,7 @@ def check_table(chk, ee, bs):
     for op in ARITH:
         stmts = bs.branch(op, ALL_BINARY)
         if stmts is None:
-            chk.bad('C03.X', ee.mod, 'evaluate_expression', f'operator {op}', f'binary operator {op} has no dispatch branch: it evaluates to null for all operands')
+            chk.unrec('C03.T', f'operator {op}: its dispatch branch was not located (whether it is implemented at all is decided by the operator coverage rule C03.X)', ee.mod.rel)
             continue
         mismatches = {}
         n_ok = 0
@@ -333,16 +333,33 @@ def check_dispatch(chk, ee, bs):
             chk.bad('C03.X', ee.mod, 'evaluate_expression', f"kind '{k}'", f"expression kind '{k}' of the schema's Expression union is not evaluated")
     for k in sorted(handled - kinds):
         chk.bad('C03.X', ee.mod, 'evaluate_expression', f"kind '{k}'", f"the evaluator dispatches on '{k}', which is not a member of the Expression union")
-    ops = set(sch.enums.get('BinaryExpressionOperator', []))
-    got = set(bs.branches)
-    missing = ops - got
-    if bs.else_branch is not None and len(missing) == 1:
-        got |= missing
-    if got == ops:
-        chk.ok('C03.X', f'binary operators dispatched = schema enum ({len(ops)})')
-    else:
-        chk.bad('C03.X', ee.mod, 'evaluate_expression', f'operators {sorted(ops ^ got)}',
-                f'binary operator dispatch and the schema enum BinaryExpressionOperator differ: {sorted(ops ^ got)}')
+    check_operator_coverage(chk, 'C03.X')
+
+
+def check_operator_coverage(chk, rule):
+    """every operator of the schema enum is implemented: `6 op 3` on number literals, abstractly evaluated, gives the arithmetic / relational / logical result"""
+    from .. import evalsim
+    vmod = chk.repo.module('model')
+    sch = schema_mod.load(vmod, 'BARE_SCRIPT_TYPES', rule)
+    ops = list(sch.enums.get('BinaryExpressionOperator', []))
+    if len(ops) < 10:
+        raise Unrecognised(rule, 'BinaryExpressionOperator enum not found', vmod.rel)
+    res = evalsim.operator_coverage(chk.repo, ops, rule)
+    rmod = chk.repo.module('runtime')
+    for op in ops:
+        got = res[op]
+        want = evalsim.WANT_NUMBERS.get(op)
+        if got[0] == 'undecided':
+            chk.unrec(rule, f'operator {op}: abstract evaluation of `6 {op} 3` not decided ({got[1]})', rmod.rel)
+        elif op not in evalsim.WANT_NUMBERS:
+            chk.unrec(rule, f'operator {op} of the schema enum is not an operator of the language definition used by this check', vmod.rel)
+        elif got == ('value', want) and type(got[1]) is type(want) or (got[0] == 'value' and isinstance(want, float) and isinstance(got[1], (int, float)) and not isinstance(got[1], bool) and got[1] == want):
+            chk.ok(rule, f'operator {op} of the schema enum is implemented: 6 {op} 3 = {got[1]!r}')
+        else:
+            chk.bad(rule, rmod, 'evaluate_expression', f'6 {op} 3 = {got[1]!r}' if got[0] == 'value' else f'6 {op} 3 raises {got[1]}',
+                    f'the operator {op} of the schema enum BinaryExpressionOperator is not implemented by the evaluator: 6 {op} 3 ' +
+                    (f'evaluates to {got[1]!r}' if got[0] == 'value' else f'raises {got[1]}') + f' instead of {want!r}')
+    return {op for op in ops if res[op][0] == 'value' and res[op][1] is not None}
 
 
 def check_short_circuit(chk, ee, bs):
@@ -657,8 +674,6 @@ def run(chk):
     chk.guard('C03.E', evalsim.report, chk, {'args': 'C03.E'}, what)
     what['once'] = 'both operands of each of the 12 arithmetic / relational operators are evaluated exactly once, left before right, whatever the left value is (null, string, number, boolean)'
     chk.guard('C03.E', evalsim.report, chk, {'once': 'C03.E'}, what)
-    if bs is not None:
-        chk.guard('C03.E', check_once, chk, ee, bs)
     # "comparisons use the total value order": the relational branches and value_compare itself (rules shared with C11)
     from . import c11
     for r in ('C11.P', 'C11.F', 'C11.C', 'C11.S'):
